@@ -82,7 +82,7 @@ Definition c_of_list (fl : list filt) (ids : list (option N)) : cmd :=
      c_binddata := false; c_usecase := false; c_destlist := false |}.
 
 Definition FD (e : list N) (f t : N) (r : role) : option featdesc :=
-  Some {| fd_addr := Some (A 1 e f); fd_type := Some t; fd_role := Some r; fd_fns := [(true, true)]; fd_sig := 7 |}.
+  Some {| fd_addr := Some (A 1 e f); fd_type := Some t; fd_role := Some r; fd_fns := [(true, true)] |}.
 Definition ED (e : list N) (st : option estate) : option entdesc :=
   Some {| ed_addr := Some {| ea_dev := Some 1%N; ea_ent := Some e |}; ed_type := Some 1%N; ed_state := st |}.
 Definition tree1 : disc :=
@@ -135,13 +135,13 @@ Definition witnesses : list (N * list op) := [
                                  d_feats := [] |}))]);
   (S_UNMARSHAL, [Connect 1; Inbound 1 (DG (H (Some (A 1 [0%N] 0)) (Some (A 0 [0%N] 0)) (Some 1%N) (Some 1%N) (Some CReply))
                 (c_of_disc [] {| d_devinfo := d_devinfo tree1; d_ents := d_ents tree1;
-                                 d_feats := [Some {| fd_addr := Some (A 1 [1%N] 1); fd_type := Some T_LOADCONTROL; fd_role := None; fd_fns := []; fd_sig := 7 |}] |}))]);
+                                 d_feats := [Some {| fd_addr := Some (A 1 [1%N] 1); fd_type := Some T_LOADCONTROL; fd_role := None; fd_fns := [] |}] |}))]);
   (S_SETOPS, [Connect 1; Inbound 1 (DG (H (Some (A 1 [0%N] 0)) (Some (A 0 [0%N] 0)) (Some 1%N) (Some 1%N) (Some CReply))
                 (c_of_disc [] {| d_devinfo := d_devinfo tree1; d_ents := d_ents tree1;
-                                 d_feats := [Some {| fd_addr := Some (A 1 [1%N] 1); fd_type := Some T_LOADCONTROL; fd_role := Some RClient; fd_fns := [(false, true)]; fd_sig := 7 |}] |}))]);
+                                 d_feats := [Some {| fd_addr := Some (A 1 [1%N] 1); fd_type := Some T_LOADCONTROL; fd_role := Some RClient; fd_fns := [(false, true)] |}] |}))]);
   (S_FACTORY, [Connect 1; Inbound 1 (DG (H (Some (A 1 [0%N] 0)) (Some (A 0 [0%N] 0)) (Some 1%N) (Some 1%N) (Some CReply))
                 (c_of_disc [] {| d_devinfo := d_devinfo tree1; d_ents := d_ents tree1;
-                                 d_feats := [Some {| fd_addr := Some (A 1 [1%N] 1); fd_type := Some 0%N; fd_role := Some RClient; fd_fns := []; fd_sig := 7 |}] |}))]);
+                                 d_feats := [Some {| fd_addr := Some (A 1 [1%N] 1); fd_type := Some 0%N; fd_role := Some RClient; fd_fns := [] |}] |}))]);
   (S_UPDATELIST, [Connect 1;
                   Inbound 1 (DG (H (Some (A 1 [0%N] 0)) (Some (A 0 [0%N] 0)) (Some 1%N) (Some 1%N) (Some CReply)) (c_of_disc [] tree1));
                   Inbound 1 (DG (H (Some (A 1 [1%N] 2)) (Some (A 0 [1%N] 2)) (Some 2%N) None (Some CNotify))
